@@ -1,6 +1,10 @@
 import Driver.Codec
 import Driver.Db
 import Driver.Arith
+import Driver.Sig
+import Driver.Export
+import Driver.Schema
+import Driver.Cli
 
 open SqliteDissect
 
@@ -9,7 +13,13 @@ def dispatch (toks : List String) : IO String := do
   | [] => pure "bad-op"
   | op :: _ =>
     let r : Option String ←
-      if op.startsWith "spec.local" || op.startsWith "spec.ptrmap" || op.startsWith "spec.hdr" then
+      if op.startsWith "export." then pure (Driver.Export.handle toks)
+      else if op.startsWith "ddl." || op == "spec.affinity" || op.startsWith "spec.ddl" then
+        pure (Driver.Schema.handle toks)
+      else if op.startsWith "sig." || op.startsWith "re." then
+        pure (Driver.Sig.handle toks)
+      else if op.startsWith "cli." then pure (Driver.Cli.handle toks)
+      else if op.startsWith "spec.local" || op.startsWith "spec.ptrmap" || op.startsWith "spec.hdr" then
         pure (Driver.Arith.handle toks)
       else if op.startsWith "varint." || op.startsWith "serial." || op.startsWith "overflow." || op.startsWith "spec." then
         pure (Driver.Codec.handle toks)
